@@ -14,7 +14,7 @@ import time
 
 from .. import core, gen, obs, ser
 
-EXTRA = ["é x", "日本", "007", "1e3", "a: b", "it's", 'q"d', 2 ** 63 - 1, -(2 ** 63), 1e308, 5e-324, -0.0, -1.5, "null", "True", "~", " lead", "trail ", "a#b",
+EXTRA = [0.75, -0.25, 0.5, "é x", "日本", "007", "1e3", "a: b", "it's", 'q"d', 2 ** 63 - 1, -(2 ** 63), 1e308, 5e-324, -0.0, -1.5, "null", "True", "~", " lead", "trail ", "a#b",
          "a #b", "-dash", "[b]", "{c}", "a,b", "@at", "%pc", "&amp", "*star", "!bang", "|pipe", ">gt", "?q", "", "0x10", "1_000", "yes", "No", ".5", "5.", "inf", "NaN", "+1"]
 # strings that the YAML block emitter writes as literal / folded block scalars (multi-line, trailing newline, number- and keyword-looking single lines)
 BLOCKY = ["line one\nline two\n", "20240117", "false", "a\nb", "x\n", "multi\n\nline", "null", "1.5", "~", "k: v\n- x", "# not a comment\n"]
@@ -266,7 +266,8 @@ def shard(ctx):
                     ctx.res.distinct.add(("core-tag", spelled.split(" ")[0], type(want).__name__))
     # ---------------------------------------------------------------- tag table (exhaustive)
     if ctx.mine(0) or not ctx.quick:
-        payload_scalar = ["plain", "'quoted str'", "a.b", "arn:aws:s3:::bucket/key"]
+        # (quoted payloads that LOOK like numbers / booleans / null are strings, with and without a tag)
+        payload_scalar = ["plain", "'quoted str'", "a.b", "arn:aws:s3:::bucket/key", "'8080'", '"true"', "'null'", '"1.5"', "'~'"]
         # number / bool looking payloads: YAML gives a tagged scalar no implicit type, the long form `{Ref: 12}` does;
         # for these only the agreement of the two loaders on the SHORT form is asserted
         ambiguous_scalar = ["12", "true", "1.5"]
